@@ -616,7 +616,36 @@ XIncludeUtils::doXIncludeTEXTFileDOM(const XMLCh *href,
 
     XMLSize_t nRead, nOffset=0;
     XMLBuffer repository;
+    bool firstBlock = true;
     while((nRead=stream->readBytes(buffer+nOffset, maxToRead-nOffset))>0){
+        if (firstBlock){
+            firstBlock = false;
+            /* "UTF-16" does not say which byte order the resource has; it is
+               the byte order mark that tells */
+            const XMLCh* const encName = transcoder->getEncodingName();
+            if (nRead >= 2
+            && (XMLString::equals(encName, XMLUni::fgUTF16EncodingString)
+             || XMLString::equals(encName, XMLUni::fgUTF16EncodingString2)
+             || XMLString::equals(encName, XMLUni::fgUTF16EncodingString3)
+             || XMLString::equals(encName, XMLUni::fgUTF16EncodingString4)
+             || XMLString::equals(encName, XMLUni::fgUTF16EncodingString5)
+             || XMLString::equals(encName, XMLUni::fgUTF16EncodingString6)
+             || XMLString::equals(encName, XMLUni::fgUTF16EncodingString7))){
+                const XMLCh* actualEncoding = NULL;
+                if (buffer[0] == 0xFE && buffer[1] == 0xFF)
+                    actualEncoding = XMLUni::fgUTF16BEncodingString;
+                else if (buffer[0] == 0xFF && buffer[1] == 0xFE)
+                    actualEncoding = XMLUni::fgUTF16LEncodingString;
+                if (actualEncoding != NULL){
+                    transcoder = XMLPlatformUtils::fgTransService->makeNewTranscoderFor(actualEncoding, failReason, 16*1024);
+                    janTranscoder.reset(transcoder);
+                    if (failReason){
+                        XIncludeUtils::reportError(parsedDocument, XMLErrs::XIncludeCannotOpenFile, href, href);
+                        return NULL;
+                    }
+                }
+            }
+        }
         XMLSize_t bytesEaten=0;
         XMLSize_t nCount = transcoder->transcodeFrom(buffer, nRead, xmlChars, maxToRead*2, bytesEaten, charSizes);
         repository.append(xmlChars, nCount);
